@@ -413,7 +413,7 @@ pub fn table() -> Vec<Case> {
 }
 
 pub fn run(ctx: &Ctx) {
-    ctx.rule("generated (X, A, B, p) from integers, fractions, negatives, zero and boundaries (100, 1e-6, 1e9), X/A/B plain or money in any rated currency and spelling, ten phrase shapes, both percent spellings, spaced and unspaced operators, 4 separator conventions; oracle = the seven textbook formulas (x/0 = 0), kind Number / Money(same currency) / Percent, tolerance 1e-9, plus metamorphic equality of the p% and %p spellings, and (two cases in five) exact equality with the same phrase whose X and/or p are held in variables bound on earlier lines; second sub-check: 2-12 number-valued phrases joined by '+' on one line (all of one kind, or mixed) must give the sum of their values; non-trivial = p not in {0,100}, X != 0 and the formulas give pairwise different values for this input (a swapped formula cannot agree by accident)");
+    ctx.rule("generated (X, A, B, p) from integers, fractions, negatives, zero and boundaries (100, 1e-6, 1e9), X/A/B plain or money in any rated currency and spelling, ten phrase shapes, both percent spellings, spaced and unspaced operators, 4 separator conventions; a fifth of the cases under the language tag tr; money also in configured currencies without a shipped rate (cad, aed, egp ...); oracle = the seven textbook formulas (x/0 = 0), kind Number / Money(same currency) / Percent, tolerance 1e-9, plus metamorphic equality of the p% and %p spellings, and (two cases in five) exact equality with the same phrase whose X and/or p are held in variables bound on earlier lines; second sub-check: 2-12 number-valued phrases joined by '+' on one line (all of one kind, or mixed) must give the sum of their values; non-trivial = p not in {0,100}, X != 0 and the formulas give pairwise different values for this input (a swapped formula cannot agree by accident)");
     ctx.assume("'6 %' and '% 6' are not percent literals (the lexer requires adjacency) and are not generated");
     ctx.run_table(&PctProp, "boundary-panel", table(), true);
     ctx.run_generated(&PctProp, ctx.tier.pick(150_000, 1_500_000), case_strategy);
